@@ -111,6 +111,9 @@ def gate(point, **ids):
         fault = rule.get('fault')
         if fault == 'kill':
             os.kill(os.getpid(), signal.SIGKILL)
+        elif fault == 'term':
+            os.kill(os.getpid(), signal.SIGTERM)
+            time.sleep(30)
         elif fault == 'exit3':
             os._exit(3)
         elif fault == 'raise':
